@@ -56,3 +56,13 @@ UNIT["fns"]["CircuitBreakerConfigBuilder::build"] = dict(file="cbconfig", rules=
 ])
 UNIT["fns"]["CircuitBreakerLayer::new"] = dict(file="cblayer", rules=[("sub", "R10-into-arc", r"config\.into\(\)", "Arc::new(config)", 1)], skip_sig_check=False)
 UNIT["types"] += [("struct", "CircuitBreakerConfigBuilder", "cbconfig"), ("struct", "CircuitBreakerConfig", "cbconfig"), ("enum", "SlidingWindowType", "cbconfig")]
+
+CBMUT = [("sub", "R16-mut-self", r"\bself\b", "self_", None), ("inject", None, "start", "let mut self_ = self;")]
+CBLISTEN = ("wrapcalls", "R6-closure-wrap", r"(?:tower_resilience_core::)?FnListener::new", "vx_wrap::<Listener>()", 1)
+UNIT["fns"]["CircuitBreakerConfigBuilder::name"] = dict(file="cbconfig", rules=CBMUT + [("sub", "R6-into", r"\bn\.into\(\)", "vx_wrap()", 1)])
+UNIT["fns"]["CircuitBreakerConfigBuilder::failure_classifier"] = dict(file="cbconfig")
+UNIT["fns"]["CircuitBreakerConfigBuilder::classify_response"] = dict(file="cbconfig", rules=[
+    ("wrapcalls", "R6-closure-wrap", r"self\.failure_classifier", "self.failure_classifier::<ResponseClassifier, Res, core::convert::Infallible>(vx_wrap())", 1)])
+for _n in ["on_state_transition", "on_call_permitted", "on_call_rejected", "on_success", "on_failure", "on_slow_call"]:
+    UNIT["fns"]["CircuitBreakerConfigBuilder::" + _n] = dict(file="cbconfig", rules=CBMUT + [("sub", "R9-paths", r"use tower_resilience_core::FnListener;", "", -1), CBLISTEN])
+UNIT["serves"] = ["C03", "C04", "C06", "C09", "C17"]
